@@ -17,6 +17,11 @@ using c10::OsslCtx; using c10::OsslConn; using c10::OsslCtxConfig; using c10::Os
 #ifndef C10_DTLS
 # define C10_DTLS 1
 #endif
+// C10_LONG=1 builds the thorough-only target in which every case carries 65537..66560 one-byte records in one direction (2-byte carry of the
+// record sequence number); the normal target draws 257..700 small records (1-byte carry) in about 4% of the cases.
+#ifndef C10_LONG
+# define C10_LONG 0
+#endif
 
 // ------------------------------------------------------------------ static description of the candidate matrix
 enum Kx { KX_RSA, KX_ECDHE_RSA, KX_ECDHE_ECDSA, KX_ECDH_ECDSA, KX_ECDH_RSA, KX_PSK, KX_TLS13 };
@@ -255,13 +260,23 @@ struct Case {
     int key_update;         // TLS 1.3: 0 none, 1 OpenSSL not-requested, 2 OpenSSL update-requested
     int mtu = 0;            // DTLS: path MTU configured on both sides
     bool os_cookie = false; // DTLS: OpenSSL server does the HelloVerifyRequest cookie exchange
+    // "many records" payload class: many_n small records in direction many_dir on connection many_conn (-1 = none), one record the other way every
+    // many_gap records; they occupy sched[many_conn][many_at .. many_at+many_len).  Sizes are 1 + (pseed + 31 i) mod many_smax.
+    int many_conn = -1, many_dir = 0; size_t many_n = 0, many_smax = 1, many_gap = 0, many_at = 0, many_len = 0;
     std::vector<std::pair<int, size_t>> sched[2]; // per connection: (direction 0 = MatrixSSL->OpenSSL, 1 = OpenSSL->MatrixSSL; size)
     uint32_t pseed;
     uint64_t eseed;
     std::string str() const {
         const SuiteD &s = ALL_SUITES[suite];
         std::string p;
-        for (int k = 0; k < 2; k++) { p += k ? " | " : ""; for (auto &m : sched[k]) p += fmt("%s%zu ", m.first ? "O>M:" : "M>O:", m.second); }
+        for (int k = 0; k < 2; k++) {
+            p += k ? " | " : "";
+            for (size_t i = 0; i < sched[k].size(); i++) {
+                if (k == many_conn && i == many_at) p += fmt("{many-records: %zu x %s 1..%zu bytes, one record back every %zu} ", many_n, many_dir ? "O>M" : "M>O", many_smax, many_gap);
+                if (k == many_conn && i >= many_at && i < many_at + many_len) continue;
+                p += fmt("%s%zu ", sched[k][i].first ? "O>M:" : "M>O:", sched[k][i].second);
+            }
+        }
         return fmt("%s ver=%s suite=%s srv-id=%s cauth=%s group=%s%s ssig=%s csig=%s resume=%s%s ems(mx=%d,ossl=%d) ossl(tickets=%d,etm=%d,maxfrag=%d,sends-root=%d) chunk=%zu piece=%zu close-first=%s keyupd=%d dtls(mtu=%d,ossl-cookie=%d) payloads=[%s] eseed=%llu",
                    mx_client ? "MatrixSSL-client/OpenSSL-server" : "OpenSSL-client/MatrixSSL-server", ver_name(ver), s.std_name,
                    sident >= 0 ? ALL_IDENTS[sident].name : "psk", cauth ? ALL_IDENTS[cident].name : "off", group >= 0 ? ALL_GROUPS[group].name : "-",
@@ -408,6 +423,22 @@ static Case draw_case(Tape &t) {
     }
     // ---- TLS 1.3 PSK key-exchange mode of the resumed connection (drawn after everything else for the same reason; zero tape = psk_dhe_ke as before)
     if (k.ver == TLS13 && (k.resume == R_PSK13 || k.resume == R_PSK13_HRR)) k.psk_ke = t.coin();
+    // ---- many records under one set of traffic keys: the record sequence number (nonce / MAC input / DTLS explicit sequence) crosses its byte carries
+    if (C10_LONG || t.below(25) == 1) {
+        k.many_conn = nconn == 2 ? (int) t.below(2) : 0;
+        k.many_dir = (int) t.below(2);
+        unsigned sc = (unsigned) t.below(3);
+        if (C10_LONG) { k.many_n = 65537 + t.below(1024); k.many_smax = 1; k.many_gap = 20000 + t.below(20000); k.chunk = k.piece = (size_t) -1; }
+        else { k.many_n = 257 + t.below(444); k.many_smax = sc == 0 ? 1 : sc == 1 ? 16 : 200; k.many_gap = 50 + t.below(150); }
+        auto &sc_ = k.sched[k.many_conn];
+        k.many_at = sc_.size();
+        for (size_t i = 0; i < k.many_n; i++) {
+            sc_.push_back({ k.many_dir, 1 + (k.pseed + 31 * i) % k.many_smax });
+            if ((i + 1) % k.many_gap == 0) sc_.push_back({ !k.many_dir, 1 + (k.pseed + i) % 40 });
+        }
+        sc_.push_back({ !k.many_dir, 3 });   // the reverse direction still works afterwards
+        k.many_len = sc_.size() - k.many_at;
+    }
     return k;
 }
 
@@ -741,10 +772,16 @@ static void prop(Tape &t, Ctx &c) {
         if (full && sid_) c.count(std::string("srv-ident:") + sid_->name);
         if (full && k.cauth) c.count(std::string("client-auth:") + cid_->name);
         if (k.ver != TLS13) c.count(fmt("ems:mx=%d,ossl=%d", k.mx_ems, (int) k.os_ems));
+        if (conn == k.many_conn) {
+            bool aead = strstr(sd.std_name, "GCM") || strstr(sd.std_name, "CHACHA");
+            c.count(fmt("many-records:%s:%s", k.ver == TLS13 ? "tls13" : dtls ? (aead ? "dtls-aead" : "dtls-cbc") : (aead ? "tls12-aead" : k.ver == TLS12 ? "tls12-cbc" : "tls11-cbc"), k.many_dir ? "openssl-to-matrixssl" : "matrixssl-to-openssl"));
+            c.count(k.many_n > 65536 ? "many-records:over-65536-in-one-direction" : "many-records:257..700-in-one-direction");
+        }
         if (nontriv) {
             std::string shape = fmt("%d|%d|%d|%d|%d|%d|%d|%d|%d|%d|%d|%d|%d|%d", (int) k.mx_client, k.ver, k.suite, k.sident, k.cauth ? k.cident : -1, k.group, k.hrr_first, k.ssig, k.csig, k.resume, conn, k.mx_ems, (int) k.os_ems, (int) k.os_tickets);
             shape += fmt("|%s", psk_ke_neg ? "psk_ke" : psk_dhe_neg ? "psk_dhe_ke" : "-");
-            for (auto &m : k.sched[conn]) shape += fmt("|%d:%zu", m.first, m.second);
+            for (size_t i = 0; i < k.sched[conn].size(); i++) if (!(conn == k.many_conn && i >= k.many_at && i < k.many_at + k.many_len)) shape += fmt("|%d:%zu", k.sched[conn][i].first, k.sched[conn][i].second);
+            if (conn == k.many_conn) shape += fmt("|many:%d:%zu:%zu:%zu", k.many_dir, k.many_n, k.many_smax, k.many_gap);
             shape += fmt("|%zu|%zu", k.chunk, k.piece);
             c.nontrivial(shape);
             c.count("nontrivial-connections");
@@ -752,7 +789,11 @@ static void prop(Tape &t, Ctx &c) {
     }
 }
 
+#if C10_LONG
+VF_TARGET("C10.interop_long", prop, 256, 600)
+#else
 VF_TARGET("C10.interop", prop, 256, 120)
+#endif
 namespace vf { void vf_global_init(int, char **) {
     mxh::global_open();
     c10::ossl_global_init();
